@@ -1,7 +1,7 @@
 -- Root of the `Ecpint` library: models, generated data, property theorems (one root per property).
 import Ecpint.Props.C01
-import Ecpint.Props.C02
-import Ecpint.Props.C03
+import Ecpint.Props.C02All
+import Ecpint.Props.C03All
 import Ecpint.Props.C04
 import Ecpint.Props.C05
 import Ecpint.Props.C06All
